@@ -490,6 +490,7 @@ void ClipperOffset::DoGroupOffset(Group& group)
 		{
 			if (deltaCallback64_)
 			{
+				BuildNormals(*path_in_it); // the callback must not see the previous path's normals
 				group_delta_ = deltaCallback64_(*path_in_it, norms, 0, 0);
 				if (group.is_reversed) group_delta_ = -group_delta_;
 				abs_delta = std::fabs(group_delta_);
